@@ -303,6 +303,10 @@ func callDesc(pi *pkgInfo, c *ast.CallExpr) string {
 	return exprString(c.Fun) + "(" + strings.Join(args, ",") + ")"
 }
 
+// localAliases maps a local variable to the single expression it was defined from (`x := expr`),
+// for the node currently being described by collectCalls.
+var localAliases map[string]ast.Expr
+
 func argDesc(pi *pkgInfo, a ast.Expr) string {
 	if v, ok := pi.exprInt(a); ok {
 		return fmt.Sprintf("C:%d", v)
@@ -325,6 +329,14 @@ func argDesc(pi *pkgInfo, a ast.Expr) string {
 		}
 		return "S:" + exprString(t)
 	case *ast.Ident:
+		if e, ok := localAliases[t.Name]; ok {
+			delete(localAliases, t.Name) // no self-reference loops
+			d := argDesc(pi, e)
+			localAliases[t.Name] = e
+			if strings.HasPrefix(d, "L:") || strings.HasPrefix(d, "F:") || strings.HasPrefix(d, "M:") {
+				return d
+			}
+		}
 		return "V:" + t.Name
 	}
 	return "?"
@@ -345,6 +357,23 @@ var interestingCall = func(fn string) bool {
 
 func collectCalls(pi *pkgInfo, n ast.Node) []string {
 	var out []string
+	localAliases = map[string]ast.Expr{}
+	defer func() { localAliases = nil }()
+	counts := map[string]int{}
+	ast.Inspect(n, func(m ast.Node) bool {
+		if as, ok := m.(*ast.AssignStmt); ok && len(as.Lhs) == 1 && len(as.Rhs) == 1 {
+			if id, ok := as.Lhs[0].(*ast.Ident); ok {
+				counts[id.Name]++
+				localAliases[id.Name] = as.Rhs[0]
+			}
+		}
+		return true
+	})
+	for k, c := range counts {
+		if c != 1 {
+			delete(localAliases, k) // assigned more than once: not an alias
+		}
+	}
 	ast.Inspect(n, func(m ast.Node) bool {
 		c, ok := m.(*ast.CallExpr)
 		if !ok {
@@ -421,5 +450,28 @@ func extractServerCalls(x *extractor) {
 	}
 	u.pf("def serverCalls : List (String × List String) := [\n%s]\n", strings.Join(parts, ",\n"))
 	u.pf("def handlePacketReadyAfterSwitch : Bool := %s\n", leanBool(readyAfter))
+	u.pf("\nend Sftp.G\n")
+}
+
+func init() { extractors = append(extractors, extractServerPaths) }
+
+// extractServerPaths: how the os-backed server turns request paths into local paths (C05).
+func extractServerPaths(x *extractor) {
+	u := x.newUnit("ServerPaths")
+	pi := x.root
+	u.pf("namespace Sftp.G\n\n")
+	canon := `{ if s.workDir != "" && !path.IsAbs(p) { p = path.Join(s.workDir, p) } return p }`
+	got := pi.bodyText(pi.funcDecl("Server.toLocalPath"))
+	if got != canon {
+		u.fail("Server.toLocalPath: unexpected body %q", got)
+	}
+	u.pf("-- source: server_unix.go Server.toLocalPath\n")
+	u.pf("def toLocalPathJoinsWorkDirForRelative : Bool := %s\n", leanBool(got == canon))
+	wd := pi.bodyText(pi.funcDecl("WithServerWorkingDirectory"))
+	ok := strings.Contains(wd, "s.workDir = cleanPath(workDir)")
+	if !ok {
+		u.fail("WithServerWorkingDirectory: does not store cleanPath(workDir): %q", wd)
+	}
+	u.pf("def workDirStoredClean : Bool := %s\n", leanBool(ok))
 	u.pf("\nend Sftp.G\n")
 }
